@@ -212,6 +212,107 @@ def san_cases(ctx: Ctx):
     return cases, n_model
 
 
+# --------------------------------------------------------------------------- the repository's own tests
+REPO_TEST_FILES = ["tests/test_security.py", "tests/test_utils.py", "tests/test_send_file.py",
+                   "tests/middleware/test_shared_data.py", "tests/test_datastructures.py"]
+
+
+def repo_test_traces(ctx: Ctx, only_test=None, kind="repotests"):
+    """code -> spec from the repository's own tests: run them under harness/pytest_pathsafety_plugin.py and judge
+    every recorded safe_join / secure_filename / send_from_directory / SharedDataMiddleware call."""
+    import glob
+    import json
+    import posixpath
+    import subprocess
+    import sys
+
+    from ..core import REPO, VERIF, cps
+
+    out = os.path.join(ctx.tmp, f"repo-records-{len(ctx.model_runs)}.json")
+    env = dict(os.environ, VERIF_TRACE_OUT=out, PYTHONPATH=VERIF + os.pathsep + os.path.join(REPO, "src"),
+               PYTHONDONTWRITEBYTECODE="1")
+    whole = not ctx.quick and only_test is None
+    files = ["tests"] if whole else REPO_TEST_FILES
+    cmd = [sys.executable, "-m", "pytest", "-q", "-p", "no:cacheprovider", "-p", "harness.pytest_pathsafety_plugin",
+           "--no-header", "-n", str(min(ctx.workers, 8)) if whole else "0", *files]
+    p = subprocess.run(cmd, cwd=REPO, env=env, capture_output=True, text=True, timeout=1800)
+    parts = sorted(glob.glob(out + ".*"))
+    if not parts:
+        raise MachineryError("recording the repository's tests produced no trace file:\n" + (p.stdout + p.stderr)[-1500:])
+    records = []
+    for f in parts:
+        records += json.load(open(f))
+    if only_test is not None:
+        records = [r for r in records if r["test"] == only_test]
+    skipped, lines, meta = {}, [], []
+
+    def skip(why):
+        skipped[why] = skipped.get(why, 0) + 1
+
+    def add(ln, rec):
+        ln["t"], ln["i"] = f"repo{len(lines)}", 0
+        lines.append(ln)
+        meta.append(rec)
+
+    for r in records:
+        untrusted = "".join(x or "" for x in r.get("parts", [])) + (r.get("path") or "") + r.get("path_info", "")
+        if any(sep and sep in untrusted for sep in r.get("altseps", [])):
+            # (tests/test_security.py::test_safe_join_os_sep leaves security._os_alt_seps = "*" behind)
+            skip("alternative separators configured by the test (outside POSIX semantics)")
+            continue
+        if r["k"] == "join":
+            if r["dir"] is None or any(x is None for x in r["parts"]):
+                skip("safe_join with a non-str argument")
+                continue
+            add({"op": "join", "dir": cps(r["dir"]), "cwd": cps(r["cwd"]), "parts": [cps(x) for x in r["parts"]],
+                 "r": {"kind": r["kind"], "v": cps(r["v"]), "exc": r["exc"]},
+                 "np": cps(posixpath.normpath(r["v"])) if r["kind"] == "path" else [],
+                 "has_exp": False, "exp_ok": False, "exp_path": []}, r)
+        elif r["k"] == "san":
+            if r["x"] is None:
+                skip("secure_filename with a non-str argument or result")
+                continue
+            add({"op": "san", "x": cps(r["x"]), "nfkd": cps(r["nfkd"]), "out": cps(r["out"]), "out2": cps(r["out2"]),
+                 "exc": r["exc"], "has_exp": False, "exp": []}, r)
+        else:  # sfd / sdm
+            if r["k"] == "sfd" and (r["root"] is None or r["path"] is None):
+                skip("send_from_directory with a bytes / non-path argument")
+                continue
+            opened = r["opened"]
+            if any(o.startswith("\x00") for o in opened):
+                skip("served object has no file name")
+                continue
+            if opened and r["root"] is None:
+                skip("loader root unknown")
+                continue
+            base = {"op": "open", "api": r["api"], "root": cps(r["root"] or ""), "cwd": cps(r["cwd"]), "status": r["status"],
+                    "exc": r["exc"]}
+            if not opened:
+                add(dict(base, file=[], opened=False), r)
+            for o in opened:
+                add(dict(base, file=cps(o), opened=True), r)
+    ctx.notes["repo_tests"] = {"files": files, "recorded": len(records), "judged": len(lines), "skipped": skipped,
+                               "pytest_exit": p.returncode, "pytest_tail": (p.stdout.strip().splitlines() or [""])[-1][:200]}
+    floor = 1 if only_test is not None else 30
+    if len(lines) < floor:
+        raise MachineryError(f"only {len(lines)} records of the repository's tests fall inside the trace vocabulary "
+                             f"(floor {floor}); recorded {len(records)}, skipped {skipped}\n" + (p.stdout + p.stderr)[-800:])
+    ctx.count(len(lines))
+    for r in meta:
+        if r["k"] in ("sfd", "sdm") and r["opened"] or r["k"] == "join" and r["kind"] == "none":
+            ctx.nontrivial.add(("repotests", r["test"], r["k"], json.dumps(r, sort_keys=True, default=str)[:300]))
+    rejects = ctx.judge(AREA, JUDGE, lines, batch=3000)
+    index = {ln["t"]: (ln, m) for ln, m in zip(lines, meta)}
+    for rj in rejects:
+        ln, m = index[rj["t"]]
+        api = {"join": "safe_join", "san": "secure_filename"}.get(m["k"], m.get("api", m["k"]))
+        ctx.violation(f"RepoTests{rj['clause']}:{api}", "RepoTests" + rj["clause"], {"test": m["test"], "record": m}, kind=kind)
+    if p.returncode != 0 and not rejects:
+        raise MachineryError("the repository's tests fail under the recording plugin although no record was rejected:\n"
+                             + (p.stdout + p.stderr)[-1500:])
+    return len(lines)
+
+
 def run(ctx: Ctx):
     q = ctx.quick
     ctx.rule = ("case = one safe_join(base, *components) call, one request through send_from_directory / "
@@ -245,13 +346,17 @@ def run(ctx: Ctx):
     cases, n_model = san_cases(ctx)
     ctx.notes["filename_cases_from_model"] = n_model
     ctx.notes["filenames_changed"] = sum(judge_sans(ctx, cases[k:k + 120000]) for k in range(0, len(cases), 120000))
+    # the repository's own tests, recorded and judged call by call
+    repo_test_traces(ctx)
 
 
 def replay(ctx: Ctx, data):
     case, kind = data["case"], data.get("kind", "join")
     ctx.nontrivial.update({("replay", 0), ("replay", 1)})
     ctx.sample(case)
-    if kind == "join":
+    if kind == "repotests":
+        repo_test_traces(ctx, only_test=case["test"], kind=kind)
+    elif kind == "join":
         judge_joins(ctx, [[case["dir"], case["parts"]]], kind)
     elif kind == "san":
         judge_sans(ctx, [[ps.txt(case["x"])]], kind)
